@@ -148,6 +148,10 @@ func newOPT(c *Cloner, udpSize uint16, doBit bool) (opt *dns.OPT) {
 		opt = &dns.OPT{}
 	} else {
 		opt = c.opt.rr.Get()
+
+		// Reset the whole header, since SetDo only changes the DO bit and
+		// leaves the extended RCODE, version, and flags of the previous use.
+		opt.Hdr = dns.RR_Header{}
 		opt.Option = opt.Option[:0]
 	}
 
